@@ -4,7 +4,7 @@ use crate::core::Model;
 use crate::models::watermark::mk_event;
 use rust_rule_engine::rete::stream_alpha_node::{StreamAlphaNode, WindowSpec};
 use rust_rule_engine::streaming::event::StreamEvent;
-use rust_rule_engine::streaming::operators::{WindowConfig, WindowedStream};
+use rust_rule_engine::streaming::operators::{AggregateResult, Average, Count, CustomAggregator, Max, Min, Sum, WindowConfig, WindowedStream};
 use rust_rule_engine::streaming::window::{TimeWindow, WindowManager, WindowType};
 use rust_rule_engine::types::Value as RV;
 use rust_rule_engine::verif_hooks::set_clock_ms;
@@ -100,7 +100,8 @@ impl Model for WN {
                 let dur = Duration::from_millis(self.w);
                 match self.m.as_str() {
                     "tumbling" => self.mgr = Some(WindowManager::new(WindowType::Tumbling, dur, self.maxev, self.cap)),
-                    "sliding" => self.tw = Some(TimeWindow::new(WindowType::Sliding, dur, 0, self.cap)),
+                    "sliding" => self.tw = Some(TimeWindow::new(WindowType::Sliding, dur, 7, self.cap)),
+                    "batch" => {}
                     _ => {
                         let wt = if self.kind == "sliding" { WindowType::Sliding } else { WindowType::Tumbling };
                         self.alpha = Some(StreamAlphaNode::new("src", Some("T".to_string()), Some(WindowSpec { duration: dur, window_type: wt })).with_max_events(self.cap));
@@ -108,6 +109,11 @@ impl Model for WN {
                 }
             }
             "tick" => self.now += l["k"].as_u64().unwrap(),
+            "add" => {
+                self.n += 1;
+                acc = self.tw.as_mut().unwrap().add_event(mk_event(self.n, l["ts"].as_u64().unwrap(), "T", data(l["v"].as_str().unwrap())));
+            }
+            "clear" => self.tw.as_mut().unwrap().clear(),
             "event" => {
                 self.n += 1;
                 let ts = l["ts"].as_u64().unwrap();
@@ -119,6 +125,7 @@ impl Model for WN {
                         self.mgr.as_mut().unwrap().process_event(e);
                     }
                     "sliding" => self.tw.as_mut().unwrap().record(mk_event(self.n, ts, "T", data(v))),
+                    "batch" => self.all.push(mk_event(self.n, ts, "T", data(v))),
                     _ => {
                         set_clock_ms(Some(BASE + self.now));
                         let e = mk_event(self.n, BASE + ts, "T", data(v));
@@ -160,6 +167,57 @@ impl Model for WN {
                 }
             }
             "sliding" => buf = agg_tw(self.tw.as_ref().unwrap()),
+            "batch" => {
+                // WindowedStream over everything offered, per-window cap = cap; every aggregate is read through
+                // WindowedStream::aggregate (which consumes the stream, so it is rebuilt per aggregator; the window order of one
+                // instance is the order of its results)
+                let mk = || {
+                    let mut cfg = WindowConfig::tumbling(Duration::from_millis(self.w));
+                    cfg.max_events = self.cap;
+                    WindowedStream::new(self.all.clone(), cfg)
+                };
+                let by_start = |agg: &dyn Fn(WindowedStream) -> Vec<AggregateResult>| -> HashMap<u64, AggregateResult> {
+                    let ws = mk();
+                    let starts: Vec<u64> = ws.windows().iter().map(|t| t.start_time).collect();
+                    starts.into_iter().zip(agg(ws)).collect()
+                };
+                let ids = by_start(&|ws| ws.aggregate(CustomAggregator::new(|evs: &[StreamEvent]| {
+                    AggregateResult::String(evs.iter().map(|e| idnum(e).to_string()).collect::<Vec<_>>().join(","))
+                })));
+                let nnum = by_start(&|ws| ws.aggregate(CustomAggregator::new(|evs: &[StreamEvent]| {
+                    AggregateResult::Number(evs.iter().filter(|e| e.get_numeric("x").is_some()).count() as f64)
+                })));
+                let cnt = by_start(&|ws| ws.aggregate(Count));
+                let sum = by_start(&|ws| ws.aggregate(Sum::new("x")));
+                let mn = by_start(&|ws| ws.aggregate(Min::new("x")));
+                let mx = by_start(&|ws| ws.aggregate(Max::new("x")));
+                let avg = by_start(&|ws| ws.aggregate(Average::new("x")));
+                let ws = mk();
+                let counts: HashMap<u64, usize> = { let w2 = mk(); let st: Vec<u64> = w2.windows().iter().map(|t| t.start_time).collect(); st.into_iter().zip(w2.counts()).collect() };
+                let mut ts: Vec<&TimeWindow> = ws.windows().iter().collect();
+                ts.sort_by_key(|t| t.start_time);
+                for t in ts {
+                    let s = t.start_time;
+                    let idv: Vec<i64> = ids.get(&s).and_then(|r| r.as_string().map(|x| x.split(',').filter(|p| !p.is_empty()).map(|p| p.parse().unwrap()).collect())).unwrap_or_default();
+                    let num = |m: &HashMap<u64, AggregateResult>| m.get(&s).and_then(|r| r.as_number());
+                    let nn = num(&nnum).unwrap_or(-1.0) as i64;
+                    let mut a = json!({"ids": idv, "count": num(&cnt).unwrap_or(-1.0) as i64, "sum2": x2(num(&sum)), "nnum": nn,
+                                       "min2": x2(num(&mn)), "max2": x2(num(&mx))});
+                    // the window's own getters and counts() must tell the same story as the aggregators
+                    let own = agg_tw(t);
+                    if own != a || counts.get(&s).copied() != Some(t.count()) {
+                        a["window_getters_disagree"] = own;
+                    }
+                    let avg_ok = match num(&avg) {
+                        Some(x) => nn > 0 && (x * nn as f64 - num(&sum).unwrap_or(0.0)).abs() < 1e-9,
+                        None => nn == 0,
+                    };
+                    if !avg_ok {
+                        a["average_disagrees"] = json!(num(&avg));
+                    }
+                    wins.push(json!({"start": t.start_time, "end": t.end_time, "agg": a}));
+                }
+            }
             "alpha" => {
                 let a = self.alpha.as_ref().unwrap();
                 let evs: Vec<&StreamEvent> = a.get_events().iter().collect();
